@@ -83,7 +83,7 @@ def fixture_source(fx):
                 out.append('}')
             out.append('')
     out += ['#[enum_def]', 'pub struct Account { pub id: i32, pub first_name: String, pub http_code: u8, pub field_1: u8, pub a1b2: u8 }', '',
-            '#[enum_def(prefix = "Pre", suffix = "Suf", table_name = "acc_table")]', 'pub struct HTTPLedger2 { pub entry_id: i32, pub amount: i64 }', '', '#[enum_def(suffix = "Def")]', 'pub struct XMLNode { pub node_id: i32 }', '']
+            '#[enum_def(prefix = "Pre", suffix = "Suf", table_name = "acc_table")]', 'pub struct HTTPLedger2 { pub entry_id: i32, pub amount: i64 }', '', '#[enum_def(suffix = "Def")]', 'pub struct XMLNode { pub node_id: i32 }', '', '#[enum_def]', 'pub struct Odd { pub type_: i32, pub _rev: i32 }', '']
     return '\n'.join(out)
 
 def rust_str(s): return '"' + s.replace('\\', '\\\\').replace('"', '\\"') + '"'
@@ -104,7 +104,9 @@ def expected_names(f, ty=None):
 # enum_def: the identifier of a field's variant is the field's name; the fixture uses fields that are their own snake_case (snake(f) == f), so both readings agree
 ENUM_DEF_EXPECT = {'AccountIden': {'Table': 'account', 'Id': 'id', 'FirstName': 'first_name', 'HttpCode': 'http_code', 'Field1': 'field_1', 'A1b2': 'a1b2'},
                    'PreHTTPLedger2Suf': {'Table': 'acc_table', 'EntryId': 'entry_id', 'Amount': 'amount'},
-                   'XMLNodeDef': {'Table': snake('XMLNode'), 'NodeId': 'node_id'}}
+                   'XMLNodeDef': {'Table': snake('XMLNode'), 'NodeId': 'node_id'},
+                   # fields that are NOT their own snake_case: the property as stated wants snake_case (type, rev); the macro spells the field verbatim (known finding)
+                   'OddIden': {'Table': 'odd', 'Type': snake('type_'), 'Rev': snake('_rev')}}
 
 # ------------------------------------------------------------------ MIR of the fixture crate (built against the current /repo)
 def fixture_mir(src_text):
@@ -282,7 +284,7 @@ def run(ctx):
                 ctx.violations.append({'key': 'name:%s::%s (enum_def)' % (ty, vname), 'msg': 'enum_def does not generate the documented variant %s::%s (generated: %s)' % (ty, vname, eng_f.variants[ty]), 'replay': {'fixture': ty}}); continue
             r = run_iden(ty, Adt(ty, vname, []), 'unquoted'); checked += 1
             if r.get('out') != want:
-                ctx.violations.append({'key': 'name:%s::%s (enum_def)' % (ty, vname), 'msg': 'enum_def identifier %s::%s is %r, documented name is %r %s' % (ty, vname, r.get('out'), want, r.get('viol', '')), 'replay': {'fixture': ty}})
+                ctx.violations.append({'key': ('enum_def-field-not-snake:%s::%s' if ty == 'OddIden' else 'name:%s::%s (enum_def)') % (ty, vname), 'msg': 'enum_def identifier %s::%s is %r, documented name is %r %s' % (ty, vname, r.get('out'), want, r.get('viol', '')), 'replay': {'fixture': ty}})
     ctx.absorb(eng_f)
     ctx.validated = checked
     ctx.samples = [{'type': f['ty'], 'expected': {str(k): (v if isinstance(v, str) else 'flattened') for k, v in expected_names(f).items()}} for f in fx[:8]]
